@@ -1,4 +1,4 @@
 CONSTANTS MaxLen = 3
           MaxLenX = 3
-INIT InitGenUlist
-NEXT GenUlist
+INIT Init
+NEXT NextGen
